@@ -214,7 +214,8 @@ func (s *state) Add(ctx context.Context, transaction Transaction, payload []byte
 		return s.updateState(tx, transaction)
 	}, stoabs.OnRollback(func() {
 		log.Logger().Warn("Reloading the XOR and IBLT trees due to a DB transaction Rollback")
-		s.loadState(ctx)
+		// the rollback may be the result of ctx being cancelled or expired: the reload must not fail for the same reason
+		s.loadState(context.WithoutCancel(ctx))
 	}), stoabs.AfterCommit(releaseAddMutex), stoabs.AfterCommit(func() {
 		if txAdded {
 			s.notify(txEvent)
